@@ -67,6 +67,7 @@ def cfgs(ctx, full):
 
 
 def special_pairs():
+    import decimal as _dc, uuid as _uuid
     out = [
         ([1, 2, 3, 4], [1, 3, 4, 5, 6]),
         ((1, 2, 3, 4), (1, 3, 4, 5, 6)),                       # fixed F2
@@ -90,6 +91,9 @@ def special_pairs():
         # paths went through a cache that identifies 1.0, 1 and True)
         ({1.0: (1, 2)}, {1.0: (1, 3)}), ([0, (1, 2)], [0, (1, 3)]), ({True: (5, 6)}, {True: (5, 7)}), ({1: (1, 2), 'k': [0, (4, 5)]}, {1: (9, 2), 'k': [0, (4, 6)]}),
         ({0.0: [(1, 2)], False: 1}, {0.0: [(1, 3)], False: 1}), ([(1, 2), 0], [(1, 3), 0]),
+        # a leaf changes type and the constructor of the new type fails on the old value in an unusual way (InvalidOperation, OverflowError, AttributeError)
+        ({'a': 'abc', 'n': 1}, {'a': _dc.Decimal('1.5'), 'n': 1}), (['x y'], [_dc.Decimal('2')]), ({'a': float('inf')}, {'a': 5}), ([float('-inf'), 1], [7, 1]),
+        ({'a': 10 ** 400}, {'a': 1.5}), ({'a': 3}, {'a': _uuid.UUID(int=3)}), ([5, 'k'], [_uuid.UUID(int=5), 'k']), ({'a': None}, {'a': _dc.Decimal('0')}), ({'a': [1]}, {'a': _dc.Decimal('1')}),
     ]
     try:
         import numpy as np
